@@ -272,6 +272,31 @@ Definition a_iselect (crit : list (string * iselv)) (drop : bool) (a : xarr) : r
   do c <- validate_isel crit a;
   fold_res (fun x kv => x_isel1 (fst kv) (snd kv) drop x) c a.
 
+(* ------------------------------------------------------------------ one batching round, transcribed *)
+(* _batch_transform(action, {dim: labels}, payload): select the labels (drop=True); a batch of
+   one element is only squeezed, otherwise reduced with the payload *)
+Definition batch_body (f : fn) (kw : kwargs) (dim : string) (labels : list cv) (a : xarr) : res xarr :=
+  do sel <- a_select [(dim, SMany labels)] true a;
+  match find_dim dim (xdims sel) with
+  | None => Ok sel
+  | Some k => if Nat.eqb (size_at k sel) 1 then x_squeeze dim true sel
+              else a_reduce f kw dim 0 false sel
+  end.
+
+(* lst[i : i + bs] for i in range(0, len(lst), bs) *)
+Definition label_chunks (bs : nat) (cs : list cv) : list (list cv) :=
+  map (fun b => firstn bs (skipn (b * bs) cs)) (seq 0 (nbatches (List.length cs) bs)).
+
+(* batched.transform(_batch_transform, [({dim: chunk}, payload) ...], newname): the statement of
+   the while loop in Action.reduce, through the generic transform.  Action.batch_round is its
+   closed form (ActionTransform.batch_round_transcription proves them equal cell by cell). *)
+Definition batch_round_t (f : fn) (kw : kwargs) (dim : string) (bs : nat) (newname : string) (a : xarr) : res xarr :=
+  match find_dim dim (xdims a) with
+  | None => Err "KeyError"
+  | Some k => transform (fun labels => batch_body f kw dim labels a) newname None 0
+                        (label_chunks bs (dcoords (nth k (xdims a) dflt_dim)))
+  end.
+
 (* ------------------------------------------------------------------ broadcast *)
 Definition bcast_check (a b : xarr) (excl : list string) : res unit :=
   do _ <- mapM (fun db =>
